@@ -59,6 +59,16 @@ Section C20.
     @temperature_analytic R N m top minT bgT old subvel age 0 = minT.
   Proof. exact (mass_slab_top_value sp). Qed.
 
+  (** mass conserving slab, above the slab top (adjusted distance < 0; the same formula for both reference models): the Gaussian
+      heat deficit never heats - the result is at most the incoming temperature - and never cools below the slab's minimum
+      temperature (up to the 1e-16 the formula adds to its denominators).  Together with the bottom side: with the half-space
+      reference the model stays between its minimum temperature and the larger of incoming temperature and background. *)
+  Theorem C20_mass_conserving_top_side : forall (m : @mass_model R) top minT bgT old subvel age adj,
+    adj < 0 -> top <= 0 -> 0 < mc_density m * mc_cp m -> 0 < mc_kappa m -> minT <= old ->
+    old - minT <> @fdec R N 1 (-16) ->
+    minT - @fdec R N 1 (-16) <= @temperature_analytic R N m top minT bgT old subvel age adj <= old.
+  Proof. exact (mass_top_side_envelope sp). Qed.
+
   (** slab plate model (McKenzie 1970): the series vanishes on the slab top and on the slab bottom *)
   Theorem C20_slab_plate_model_boundaries : forall n i Rn x acc,
     @mckenzie_sum R N n i Rn x 0 acc = acc /\ @mckenzie_sum R N n i Rn x 1 acc = acc.
@@ -101,6 +111,7 @@ Print Assumptions C20_linear.
 Print Assumptions C20_plate_boundaries.
 Print Assumptions C20_mass_conserving_bottom_side.
 Print Assumptions C20_mass_conserving_slab_top.
+Print Assumptions C20_mass_conserving_top_side.
 Print Assumptions C20_slab_plate_model_boundaries.
 Print Assumptions C20_plate_series_overshoot.
 Print Assumptions C20_constant_age_overshoot.
